@@ -1,8 +1,15 @@
 ----------------------------- MODULE Trace_Links -----------------------------
 (* TLC judges recorded runs of the real DoLinks.run_molecule and rows of the real match_order.
    order row : [kind |-> "order", o1, r1, o2, r2, res : BOOLEAN]
-   run       : [kind |-> "run", M, links : Seq(L), steps : Seq([link : index, before : nodes, matches : Seq(Seq(<<key, node>>))]),
-                final : [ids : Seq(node), inters : Seq([type, atoms, params, ver])]]                                  *)
+   run       : [kind |-> "run", M, links : Seq(L),
+                steps : Seq([link : index, before : nodes (<<>> = not recorded), matches : Seq(Seq(<<key, node>>))]),
+                final : [ids : Seq(node), nodes : nodes, inters : Seq([type, atoms, params, ver, meta])]]
+               A run may be a SEGMENT of a longer real run: M is then the recorded state when the segment's first link started
+               and final the recorded state when its last link was done (the recorder takes both from the same object, so
+               consecutive segments chain by construction).
+               Recorded geometry-derived parameters arrive as <<"geo", kind>>: the judge compares the tables with the values
+               masked and hands the exact invariants of the model's final table back (verdict.geo); the driver matches the floats
+               the real code produced against them with a stated tolerance.                                              *)
 EXTENDS Links, Json, IOUtils
 
 Batch == JsonDeserialize(IOEnv.TRACE_FILE)
@@ -22,31 +29,50 @@ ApplyAll(M, L, ms, i) == IF i > Len(ms) THEN M ELSE ApplyAll(ApplyPlacement(M, L
 \* atoms a link deletes (replace atomname -> null) disappear after all placements of THAT link have been applied,
 \* together with their bonds and interactions
 DeleteNodes(M, dead) ==
-  [M EXCEPT !.nodes = SelectSeq(@, LAMBDA n : n.id \notin dead),
-            !.edges = SelectSeq(@, LAMBDA e : e[1] \notin dead /\ e[2] \notin dead),
-            !.inters = SelectSeq(@, LAMBDA x : SeqSet(x.atoms) \cap dead = {})]
+  IF dead = {} THEN M
+  ELSE [M EXCEPT !.nodes = SelectSeq(@, LAMBDA n : n.id \notin dead),
+                 !.edges = SelectSeq(@, LAMBDA e : e[1] \notin dead /\ e[2] \notin dead),
+                 !.inters = SelectSeq(@, LAMBDA x : SeqSet(x.atoms) \cap dead = {})]
 DeadOf(L, ms) == UNION {{AsMap(ms[j])[L.deletes[d]] : d \in DOMAIN L.deletes} : j \in DOMAIN ms}
+
+\* node attributes are compared as sets of (key, value) pairs: the order in which attributes were set is not observable
+NodeView(ns) == [i \in DOMAIN ns |-> [id |-> ns[i].id, resid |-> ns[i].resid, attrs |-> SeqSet(ns[i].attrs), mods |-> ns[i].mods]]
+
+\* the final table is compared as a bag, geometry-derived values masked (they are matched by the driver, see verdict.geo)
+IsGeo(p) == p[1] = "geo"
+Masked(x) == [x EXCEPT !.params = [i \in DOMAIN x.params |-> IF IsGeo(x.params[i]) THEN <<"geo", x.params[i][2]>> ELSE x.params[i]]]
+SameBag(s, t) ==
+  /\ Len(s) = Len(t)
+  /\ SeqSet(s) = SeqSet(t)
+  /\ (Cardinality(SeqSet(s)) = Len(s) \/ \A x \in SeqSet(s) : Cardinality({i \in DOMAIN s : s[i] = x}) = Cardinality({i \in DOMAIN t : t[i] = x}))
+GeoOf(inters) ==
+  UNION {{[type |-> inters[i].type, atoms |-> inters[i].atoms, ver |-> inters[i].ver, idx |-> j, tok |-> inters[i].params[j]] :
+            j \in {jj \in DOMAIN inters[i].params : IsGeo(inters[i].params[jj])}} : i \in DOMAIN inters}
+
+Res(v, g) == [v |-> v, geo |-> g]
 
 \* walk over the steps; the state carries the model molecule
 RECURSIVE Walk(_, _, _)
 Walk(e, M, s) ==
   IF s > Len(e.steps)
-  THEN IF SeqSet(e.final.ids) # NodeIds(M) THEN "deleted-atoms-differ"
-       ELSE IF SeqSet(e.final.inters) # SeqSet(M.inters) \/ Len(e.final.inters) # Len(M.inters) THEN "final-interactions-differ"
-       ELSE "ok"
+  THEN IF SeqSet(e.final.ids) # NodeIds(M) THEN Res("deleted-atoms-differ", {})
+       ELSE IF NodeView(e.final.nodes) # NodeView(M.nodes) THEN Res("final-node-attributes-differ", {})
+       ELSE LET mine == [i \in DOMAIN M.inters |-> Masked(M.inters[i])] IN
+            IF ~SameBag(e.final.inters, mine) THEN Res("final-interactions-differ", {})
+            ELSE Res("ok", GeoOf(M.inters))
   ELSE LET st == e.steps[s]
            L == e.links[st.link]
            F == Fits(L, M)
            got == {AsMap(st.matches[j]) : j \in DOMAIN st.matches}
-       IN IF st.before # M.nodes THEN "attribute-replacements-not-as-declared"
-          ELSE IF \E f \in got : f \notin F THEN "link-applied-where-it-does-not-fit"
-          ELSE IF \E f \in F : f \notin got THEN "fitting-placement-not-applied"
-          ELSE IF Len(st.matches) # Cardinality(got) THEN "placement-applied-twice"
+       IN IF st.before # <<>> /\ NodeView(st.before) # NodeView(M.nodes) THEN Res("attribute-replacements-not-as-declared", {})
+          ELSE IF \E f \in got : f \notin F THEN Res("link-applied-where-it-does-not-fit", {})
+          ELSE IF \E f \in F : f \notin got THEN Res("fitting-placement-not-applied", {})
+          ELSE IF Len(st.matches) # Cardinality(got) THEN Res("placement-applied-twice", {})
           ELSE Walk(e, DeleteNodes(ApplyAll(M, L, st.matches, 1), DeadOf(L, st.matches)), s + 1)
 
-Init == tid \in 1..Len(Batch) /\ verdict = "pending"
-Eval == /\ verdict = "pending"
-        /\ verdict' = LET e == Batch[tid] IN IF e.kind = "order" THEN JudgeOrder(e) ELSE Walk(e, e.M, 1)
+Init == tid \in 1..Len(Batch) /\ verdict = Res("pending", {})
+Eval == /\ verdict.v = "pending"
+        /\ verdict' = LET e == Batch[tid] IN IF e.kind = "order" THEN Res(JudgeOrder(e), {}) ELSE Walk(e, e.M, 1)
         /\ UNCHANGED tid
 Spec == Init /\ [][Eval]_vars
 =============================================================================
